@@ -202,6 +202,7 @@ func (ex *Exec) runPath(r *Runner, h *Harness, prefix []decision) {
 	ex.tagCount = map[string]int{}
 	ex.onceDone = map[*Cell]bool{}
 	ex.pools = map[*Cell][]Value{}
+	ex.condWaiters = map[*Cell][]*gor{}
 	ex.newScheduler()
 	q0, t0 := ex.solver.Queries, ex.solver.Time
 
